@@ -232,3 +232,47 @@ def class_mutables_via_self(repo):
             if muts and not assigned:
                 out.append((cname, attr, muts))
     return out
+
+
+LOOKUPS_NONE_FOR_MISSING = {'get_node', 'remove_node', 'get_child', 'remove_child', '_remove_node'}
+
+
+def lookup_truthiness(repo):
+    """results of the tree lookups that answer None for "no such node" (get_node(..., incomplete=None), remove_node, get_child ...) that
+    are tested by truth value: a node that exists but is falsy - an empty list or mapping, 0, '', null, false - is then taken for
+    missing. Yields (function, test node, local name, lookup)."""
+    def src(v):
+        if isinstance(v, ast.Call) and isinstance(v.func, ast.Attribute) and v.func.attr in LOOKUPS_NONE_FOR_MISSING:
+            return v.func.attr
+        if isinstance(v, ast.IfExp):
+            a, b = src(v.body), src(v.orelse)
+            none = lambda x: isinstance(x, ast.Constant) and x.value is None
+            if (a and (b or none(v.orelse))) or (b and none(v.body)):
+                return a or b
+        if isinstance(v, ast.NamedExpr):
+            return src(v.value)
+        return None
+    for fi in repo.all_functions():
+        names = {}
+        stores = {}
+        for n in ast.walk(fi.node):
+            if isinstance(n, ast.Name) and isinstance(n.ctx, ast.Store):
+                stores[n.id] = stores.get(n.id, 0) + 1
+            if isinstance(n, ast.Assign) and len(n.targets) == 1 and isinstance(n.targets[0], ast.Name) and src(n.value):
+                names[n.targets[0].id] = src(n.value)
+            if isinstance(n, ast.NamedExpr) and isinstance(n.target, ast.Name) and src(n.value):
+                names[n.target.id] = src(n.value)
+        names = {k: v for k, v in names.items() if stores.get(k) == 1 and k not in fi.params()}
+        if not names:
+            continue
+        for n in ast.walk(fi.node):
+            tests = []
+            if isinstance(n, (ast.If, ast.While, ast.IfExp, ast.Assert)):
+                tests.append(n.test)
+            if isinstance(n, ast.BoolOp):
+                tests += n.values[:-1] if not isinstance(getattr(n, '_parent', None), (ast.If, ast.While, ast.IfExp, ast.Assert, ast.UnaryOp, ast.BoolOp)) else n.values
+            if isinstance(n, ast.UnaryOp) and isinstance(n.op, ast.Not):
+                tests.append(n.operand)
+            for t in tests:
+                if isinstance(t, ast.Name) and t.id in names:
+                    yield fi, t, t.id, names[t.id]
